@@ -6,7 +6,7 @@ META = {
     "technique": "Lean 4 theorems over an executable model of kafka.Conn's response side: a size-threading reader monad (read.go/discard.go), parser programs interpreted over it (the readFrom methods, reflective struct layouts and the framing call table are regenerated from /repo by a go/ast translator on every run; the inline closures of conn.go/read.go are transcribed), (*Conn).do / waitResponse / ReadBatchWith+Batch as a connection state machine; byte conservation proved once for all parser programs by mutual induction; model<->code differential correspondence through a compiled Lean oracle driving the real Conn over net.Pipe against a scripted broker",
     "level_claimed": {
         "category": "proof",
-        "text": "Kernel-checked: for every operation going through (*Conn).do except list-offsets (metadata, brokers, controller, produce v2/v3/v7, create/delete topics, find coordinator, join/sync/leave group, heartbeat, list groups, offset commit/fetch, sasl handshake/authenticate), every negotiated version, EVERY byte content of a fully delivered response frame (so any int16 in any error field) and any following bytes: either the result is ok/a kafka error, exactly the frame was consumed, the Conn stays open and its state equals that of a fresh Conn at the next frame (aligned_or_closed, next_op_as_fresh), or the result is a non-kafka error and the Conn is closed, after which every operation fails (closed_stays_failed). Fetch: same statement for every byte-conserving message-set reader, under the hypothesis that a response at the high watermark carries an empty set (fetch_aligned_or_closed + counterexample). List-offsets relies on the shape of a well-formed answer: proved for every one-topic/one-partition frame (listOffsets_aligned_wf, all names, codes, values, trailing bytes) with a counterexample theorem for two partitions; ApiVersions (no expectZeroSize in the Go code): proved for every well-formed v0 frame (apiVersions_aligned_wf: any error code, any number of entries, any trailing bytes). The read lock (rlock) is released on every exit path of an exchange — peek error, ErrNoProgress, body read via do/ApiVersions, Batch.close — as regenerated facts (lock_facts_hold, lock_released_on_every_path, lock_released_fetch; leaked_lock_blocks + counterexamples: a leaked lock blocks every later operation forever). The D2 shape (no drain) is refuted by d2_regression_counterexample. Model tied to the code by regenerated parser programs/call table and by running the real Conn and the model on the same frames (op x version x error codes in every error field x following op).",
+        "text": "Kernel-checked over an executable model of kafka.Conn's response side whose parser programs are ALL regenerated from /repo or checked step-for-step against the regenerated ones (readFrom methods, reflective struct layouts, read.go fetch headers, conn.go element callbacks, ApiVersions; closures_regenerated + stepsEq_sound) and equal the Kafka layouts (gen_matches_spec). For every operation going through (*Conn).do except list-offsets, every negotiated version, EVERY byte content of a fully delivered response frame (so any int16 in any error field) and any following bytes: either the result is ok/a kafka error, exactly the frame was consumed, the Conn stays open and its state equals that of a fresh Conn at the next frame (aligned_or_closed, next_op_as_fresh), or the result is a non-kafka error and the Conn is closed, after which every operation fails (closed_stays_failed); the result of an exchange depends on its own frame's bytes only and whatever follows is left untouched (result_depends_only_on_frame: locality + conservation, two mutual inductions over all parser programs); a response under a foreign correlation id closes the Conn (desync_closes, fix C11-D30). Fetch: same statement for every byte-conserving message-set reader (fetch_aligned_or_closed), the conservation hypothesis discharged for the reader-stack accounting of message_reader.go (stack_run_adv, stack_discard_empties, regenerated facts). List-offsets and ApiVersions: proved for every well-formed frame (listOffsets_aligned_wf, apiVersions_aligned_wf) with counterexamples beyond. The read lock is released on every exit path of an exchange (regenerated facts; lock_released_on_every_path, leaked_lock_blocks). D2 shape refuted (d2_regression_counterexample). Tied by running the real Conn and the model on the same frames: op x version x error codes in every error field (also in non-last array entries) x following op, partial reads of plain/compressed batches, Conn.Read/ReadMessage, framing-error frames, three-operation chains after a foreign correlation id.",
         "design_ref": "DESIGN.md §7 C11",
     },
     "level_note": "Trusted: Lean kernel; propext/Quot.sound; the go/ast translator go/extract/connlegacy.go (restricted Go subset, anything else = untranslated = broken obligation); the hand transcription of the conn.go closures (readOffset, writeCompressedMessages), read.go fetch headers, (*Conn).do/waitResponse/Batch.close into Model/ConnOps.lean (checked by correspondence on sampled frames only); bufio.Reader/net.Conn modelled (Peek/Discard/ReadFull on a byte list followed by EOF); message_reader.go abstracted to 'any byte-conserving reader' (its internals belong to C02/C05); deadlines never expire in the model; frame size prefix >= 4; response layouts in the driver are transcribed from the Kafka protocol documentation (no broker in the sandbox). ApiVersions alignment is proved for well-formed frames only (the Go code does not check for trailing bytes).",
